@@ -138,7 +138,20 @@ def translate(ctx):
 # --------------------------------------------------------------------------------------
 # step 2: proofs
 
+def coq_project():
+    """_CoqProject lists every .v file under coq/ (coqdep orders them)."""
+    files = []
+    for d, _, fs in os.walk(COQ):
+        for f in fs:
+            if f.endswith(".v") and not f.startswith("."):
+                files.append(os.path.relpath(os.path.join(d, f), COQ))
+    body = "-Q . SLX\n-arg -w -arg -notation-overridden,-deprecated-hint-without-locality,-deprecated-instance-without-locality\n"
+    body += "\n".join(sorted(files)) + "\n"
+    write_if_changed(os.path.join(COQ, "_CoqProject"), body)
+
+
 def coq_makefile():
+    coq_project()
     mk = os.path.join(COQ, "Makefile.coq")
     cp = os.path.join(COQ, "_CoqProject")
     if not os.path.exists(mk) or os.path.getmtime(mk) < os.path.getmtime(cp):
